@@ -9,8 +9,10 @@ package main
 // MarshalJSON errors (mode ext) - for every k, over SSE (with and without
 // keep-alive pings) and multipart/mixed; the requests after it, B1 B2 ..., are
 // ordinary streams of both transports. Stream.tla says what A's stream is as
-// the code serves it today (MEncodeFail .. MBlobEnd / FlushOutFail) and - the
-// property - that every later request is a behaviour of a FRESH handler:
+// the code serves it today (SSE: MEncodeFail .. MBlobEnd; multipart since
+// a4760cc: Add panics on the handler goroutine, the deferred Done flushes what
+// is pending, then the recovered panic's error object) and - the property -
+// that every later request is a behaviour of a FRESH handler:
 // StreamTrace's Reset line of a later request keeps only what Stream says a
 // handler keeps between requests, which is nothing.
 //
@@ -37,8 +39,9 @@ const (
 type history struct {
 	ID    string
 	Steps []*Scenario
-	// TickerFlush: A is shaped so that the aggregator's TICKER goroutine meets the payload
-	// that cannot be encoded (the others keep it for Done's flush on the handler goroutine)
+	// TickerFlush: A is shaped so that - were the payload encoded in flush, as before a4760cc - the
+	// aggregator's TICKER goroutine would meet the payload that cannot be encoded (process death);
+	// the other multipart shapes would leave it to Done's flush on the handler goroutine
 	TickerFlush bool
 }
 
@@ -103,9 +106,9 @@ func histories(seed int64, thorough bool, tag string) []*history {
 				later(h, 1_000_000)
 			}
 			// multipart: n = 2 incremental payloads, position k = 1 (the initial payload) .. 3. The payloads
-			// before position k are spaced (the ticker flushes them, each part alone or batched); from
-			// position k on everything is produced at once and the source ends, so that the payload that
-			// cannot be encoded is still pending when Done flushes on the handler goroutine.
+			// before position k are spaced (the ticker flushes them, each part alone or batched); the
+			// payload at position k follows a flush interval later (before a4760cc: from position k on
+			// everything at once and the source ends, so that Done's flush met the payload).
 			const mmIv = 20_000_000
 			for k := 1; k <= 3; k++ {
 				d := make([]int64, 3)
@@ -120,11 +123,14 @@ func histories(seed int64, thorough bool, tag string) []*history {
 				later(h, mmIv)
 			}
 		}
-		// multipart, the payload that cannot be encoded meets the TICKER goroutine's flush: the source
-		// pauses for several flush intervals right after producing it
-		for _, k := range []int{1, 2} {
+		// multipart with a 1 ms flush interval, everything up to position k at once, and a source that would pause
+		// for several intervals right after the payload that cannot be encoded (before a4760cc: the TICKER
+		// goroutine's flush met it - the regression this shape is kept for; now Add fails before the pause)
+		for _, k := range []int{1, 2, 3} {
 			d := make([]int64, 3)
-			d[k] = 8_000_000
+			if k < 3 {
+				d[k] = 8_000_000
+			}
 			h := newH(fmt.Sprintf("mm-fail%d-tickerflush", k))
 			h.TickerFlush = true
 			mk(h, &Scenario{Class: "hist-fail-tickerflush", Kind: "mm", IntervalNs: 1_000_000, N: 2, Sizes: pickSizes(r, 3, false), DelaysNs: d,
